@@ -260,6 +260,15 @@ func TestVerif_C06(t *testing.T) {
 			modFailIDs = append(modFailIDs, rcpts[k].r)
 			stats["modifier-failure"]++
 		}
+		blkMods := make([]bool, nBlocks)
+		for b := range blkMods {
+			blkMods[b] = r.chance(40)
+		}
+		for _, x := range rcpts {
+			if modFail[fmt.Sprintf("r%d", x.r)] {
+				blkMods[x.b] = true
+			}
+		}
 		// script: mostly quiet, a few verdicts
 		script := map[string]int{}
 		var sterms []string
@@ -332,8 +341,13 @@ func TestVerif_C06(t *testing.T) {
 			}
 			perRcpt := map[string]*rcptBlock{}
 			for b := 0; b < nBlocks; b++ {
-				perRcpt[fmt.Sprintf("b%d.example", b)] = &rcptBlock{checks: toChecks(blkC[b]), targets: []module.DeliveryTarget{targets[blkT[b]]},
-					modifiers: modify.Group{Modifiers: []module.Modifier{&v6Mod{fail: modFail}}}}
+				blk := &rcptBlock{checks: toChecks(blkC[b]), targets: []module.DeliveryTarget{targets[blkT[b]]}}
+				// some blocks have recipient modifiers, some have none; the block of a recipient whose
+				// modifier is to fail always has
+				if blkMods[b] {
+					blk.modifiers = modify.Group{Modifiers: []module.Modifier{&v6Mod{fail: modFail}}}
+				}
+				perRcpt[fmt.Sprintf("b%d.example", b)] = blk
 			}
 			zones := map[string]mockdns.Zone{}
 			switch dmarcPol {
